@@ -11,7 +11,7 @@ SUITE={'C01':('serializer','./...'),'C02':('serializer','./...'),'C03':('seriali
 'C14':('ds','./reactive/... .'),'C15':('runtime','./event/... ./promise/... ./valuenotifier/...'),
 'C16':('runtime','./workerpool/... ./syncutils/...'),'C17':('runtime','./syncutils/... ./workerpool/...'),
 'C18':('runtime','-skip MemLeak ./timed/...'),'C19':('core','./...'),'C20':('app','./daemon/...')}
-ORD={'2':'SECOND','3':'THIRD','4':'FOURTH','5':'FIFTH'}
+ORD={'2':'SECOND','3':'THIRD','4':'FOURTH','5':'FIFTH','6':'SIXTH','7':'SEVENTH'}
 def main():
     rnd=sys.argv[1]; pids=sys.argv[2:]
     props={json.loads(l)['id']:json.loads(l) for l in open('/verif/properties.jsonl')}
